@@ -330,8 +330,9 @@ def run_shape(case, shape, tier, seed):
                 s.add(ir.lower_bool(c))
             # reachability twin: the path condition itself must be satisfiable (else the obligation is vacuous)
             gsize = len(ir.reachable([goal] + list(p.pc)))
+            pc_env = None
             if p.pc:
-                rr, _ = checked(s, case.solver_timeout_ms, (), gsize)
+                rr, pc_env = checked(s, case.solver_timeout_ms, src.vars, gsize)
                 res['queries'] += 1
                 if rr != 'sat':
                     res['status'] = 'inconclusive'
@@ -343,9 +344,9 @@ def run_shape(case, shape, tier, seed):
             # cheap refutation first: evaluate the goal under a few assignments (a concrete, replayed counterexample is a
             # definitive refutation; only the solver's unsat can discharge the obligation)
             pre_env = None
-            if not ir.isc(goal) and not p.pc:
-                for k in range(4):
-                    env = dict((name, rng.getrandbits(bits) if k else 0) for name, bits in src.vars)
+            if not ir.isc(goal):
+                for k in range(4 if not p.pc else 1):
+                    env = dict((name, rng.getrandbits(bits) if k else 0) for name, bits in src.vars) if not p.pc else pc_env
                     try:
                         if ir.eval1(goal, env, case.uf_concrete) == 0:
                             pre_env = env
@@ -722,10 +723,17 @@ def write_evidence(prop, tier, seed, results, violations, knowns, inconcl, nvali
         c['identical_terms'] += r['identical']
         c['paths'] += r['paths']
         c['solver_s'] = round(c['solver_s'] + r['solver_s'], 3)
-        if r['samples'] and sum(1 for s in samples if s.get('case') == r['case']) < 2:
-            s = dict(r['samples'][0])
-            s['case'] = r['case']
-            samples.append(s)
+    allsamples = []
+    for r in results:
+        for smp in r['samples']:
+            d = dict(smp)
+            d['case'] = r['case']
+            allsamples.append(d)
+    # prefer obligations with many free variables and real solver work over trivial ones
+    allsamples.sort(key=lambda d: (d.get('goal') != 'syntactically identical terms', d.get('free_vars', 0), d.get('path_condition_atoms', 0)), reverse=True)
+    for d in allsamples:
+        if sum(1 for x in samples if x.get('case') == d['case']) < 2:
+            samples.append(d)
     distinct = len(set((r['case'], json.dumps(r['shape'], sort_keys=True)) for r in results if r['nvars'] > 0 and r['obligations'] > 0))
     cases = {c.name: c for c in common.REGISTRY.values() if c.prop == prop}
     ev = dict(
